@@ -98,6 +98,29 @@ pub struct Prog {
   pub items: Vec<Item>,
 }
 
+impl Prog {
+  // a repeat time that is negative: whether such a program is accepted is left open (a loader
+  // may reject it); if it is accepted, the expansion must carry the number unchanged
+  pub fn has_negative_time(&self) -> bool {
+    self.items.iter().any(|it| match it {
+      Item::Single { rep: SRep::Special { delay, interval, .. }, .. } | Item::RepeatOnly { rep: SRep::Special { delay, interval, .. }, .. } => *delay < 0 || *interval < 0,
+      Item::Row { rep: RRep::Special { delay, interval, .. }, .. } => *delay < 0 || *interval < 0,
+      _ => false,
+    })
+  }
+}
+
+fn gen_ms(src: &mut Src, base: usize) -> i32 {
+  match src.weighted(&[80, 5, 5, 4, 3, 3]) {
+    0 => src.below(base) as i32 + if base < 100 { 1 } else { 0 },
+    1 => 0,
+    2 => -1,
+    3 => i32::MAX,
+    4 => i32::MIN,
+    _ => -(src.below(1000) as i32),
+  }
+}
+
 // spelling decisions are drawn from a separate source so that one program can be rendered twice
 pub struct Spell<'a, 'b> {
   pub src: &'a mut Src<'b>,
@@ -704,7 +727,7 @@ pub fn gen_prog(src: &mut Src) -> Prog {
           _ => {
             let terminal = if src.chance(10) { None } else { Some(src.pick(&[F20, F21, F24, C, K3])) };
             let initial = if terminal.is_some() { gen_out_mods(src, 1, &[]) } else { vec![] };
-            SRep::Special { initial, terminal, delay: src.below(400) as i32, interval: 1 + src.below(90) as i32 }
+            SRep::Special { initial, terminal, delay: gen_ms(src, 400), interval: gen_ms(src, 90) }
           }
         };
         body.push(Item::Single { mods, key, to_initial, to_terminal, rep, absorbing });
@@ -723,7 +746,7 @@ pub fn gen_prog(src: &mut Src) -> Prog {
           2 => RRep::Disabled,
           _ => {
             let rletters = gen_letters(src, n_letters, false);
-            RRep::Special { initial: vec![], letters: rletters, delay: src.below(400) as i32, interval: 1 + src.below(90) as i32 }
+            RRep::Special { initial: vec![], letters: rletters, delay: gen_ms(src, 400), interval: gen_ms(src, 90) }
           }
         };
         body.push(Item::Row { mods, row, to_initial, letters, rep, absorbing });
@@ -744,7 +767,16 @@ pub fn gen_prog(src: &mut Src) -> Prog {
         let rep = match src.weighted(&[10, 40, 50]) {
           0 => SRep::Normal,
           1 => SRep::Disabled,
-          _ => SRep::Special { initial: if src.chance(40) { vec![Mo::Key(LEFTCTRL)] } else { vec![] }, terminal: Some(src.pick(&[F19, F20, F21, F24])), delay: 180, interval: 30 },
+          _ => {
+            // chords of repeat-only entries: plain keys and aliases of the trigger; a chord may
+            // name a key twice (nothing forbids it)
+            let mut initial = if src.chance(50) { gen_out_mods(src, 2, &[]) } else if src.chance(40) { vec![Mo::Key(LEFTCTRL)] } else { vec![] };
+            if !initial.is_empty() && src.chance(20) {
+              let d = initial[src.below(initial.len())].clone();
+              initial.push(d);
+            }
+            SRep::Special { initial, terminal: Some(src.pick(&[F19, F20, F21, F24])), delay: if src.chance(80) { 180 } else { gen_ms(src, 400) }, interval: if src.chance(80) { 30 } else { gen_ms(src, 90) } }
+          }
         };
         body.push(Item::RepeatOnly { mods, key, rep });
       }
@@ -884,6 +916,9 @@ pub fn run_case(c: &C13Case, stats: &mut Stats) -> Result<(), Violation> {
           format!("program {} converts to [{}] but its hand-written expansion is groups [{}] + identities [{}]", c.json_a, layout_text(l), exp_text.join(", "), e.identities.iter().map(mapping_text).collect::<Vec<_>>().join("; ")),
         ));
       }
+    }
+    (Ok(_), Err(_)) if c.prog.has_negative_time() => {
+      stats.label("negative-time-rejected(left-open)");
     }
     (Ok(_), Err(msg)) => {
       return Err(Violation::new("valid-program-rejected", format!("program {} was rejected ({}) although every shorthand in it has a hand-written expansion", c.json_a, msg)));
